@@ -73,7 +73,7 @@ def evaluate(patch: str, demo: str | None, run_tests: bool = True) -> dict:
         ev = tempfile.mkdtemp(prefix="csa_seed_ev_")
         try:
             for p in CLAIMED:
-                r = sh([PY, "-m", "csa", "check", p, "--root", d], cwd="/verif", env={**os.environ, "CSA_EVIDENCE_DIR": ev})
+                r = sh([PY, "-m", "csa", "check", p, "--root", d], cwd=os.environ.get("CSA_HOME", "/verif"), env={**os.environ, "CSA_EVIDENCE_DIR": ev})
                 status[p] = r.returncode
                 if r.returncode == 1:
                     fired[p] = sorted(set(re.findall(r"\[csa\] FAIL (C\d\d\.R\d+)", r.stdout)))
